@@ -162,70 +162,95 @@ func runC19(c *Check, w *World) {
 	})
 	c.Decide(okWE, "R19.4", FuncName(we), "sets-status", "writeError sets the status code it is given", "writeError does not set the given status code", w.Pos(we.Pos()))
 	nErr, nOK := 0, 0
+	doneFn := map[*ssa.Function]bool{}
+	// a handler and the service-layer helpers it calls (writeJSON …) are one unit: the exit rules hold in each
+	// function of the unit, the 200 may be set in any of them
+	unitOf := func(h *ssa.Function) []*ssa.Function {
+		seen := map[*ssa.Function]bool{h: true}
+		out := []*ssa.Function{h}
+		for i := 0; i < len(out) && i < 32; i++ {
+			EachInstr(out[i], func(in ssa.Instruction) {
+				if ci, ok := in.(ssa.CallInstruction); ok {
+					if g := ci.Common().StaticCallee(); g != nil && g != we && g.Blocks != nil && fnPkgPath(g) == ApiPath && !seen[g] {
+						seen[g] = true
+						out = append(out, g)
+					}
+				}
+			})
+		}
+		return out
+	}
 	for _, r := range routes {
-		h := r.handler
-		if h == nil {
+		if r.handler == nil {
 			continue
 		}
-		hfn := FuncName(h)
-		// every writeError has a constant status >= 400 and is followed by return
-		EachInstr(h, func(in ssa.Instruction) {
-			cl, ok := in.(*ssa.Call)
-			if !ok {
-				return
-			}
-			if cl.Call.StaticCallee() == we {
-				nErr++
-				k, isK := constInt(cl.Call.Args[1])
-				okS := isK && k.Int64() >= 400 && k.Int64() < 600
-				_, ret := cl.Block().Instrs[len(cl.Block().Instrs)-1].(*ssa.Return)
-				c.Decide(okS && ret, "R19.4", hfn, fmt.Sprintf("error-exit@%s", statusOf(k)), "an error exit answers with a constant 4xx/5xx status and returns", "an error exit does not set a constant 4xx/5xx status and return at once", w.InstrPos(in))
-			}
-			if strings.HasSuffix(CalleeName(cl.Common()), "RequestCtx).SetStatusCode") {
-				if k, isK := constInt(cl.Call.Args[1]); isK && k.Int64() == 200 {
-					nOK++
-				}
-			}
-		})
-		// every tested error leads to writeError
-		for _, b := range h.Blocks {
-			iff, ok := b.Instrs[len(b.Instrs)-1].(*ssa.If)
-			if !ok {
-				continue
-			}
-			bo, ok := iff.Cond.(*ssa.BinOp)
-			if !ok || !(isNilConst(bo.Y) || isNilConst(bo.X)) || !(bo.Op == token.NEQ || bo.Op == token.EQL) {
-				continue
-			}
-			v := bo.X
-			if isNilConst(bo.X) {
-				v = bo.Y
-			}
-			if !isErrorType(v.Type()) {
-				continue
-			}
-			eb := b.Succs[0]
-			if bo.Op == token.EQL {
-				eb = b.Succs[1]
-			}
-			has := false
-			for _, in := range eb.Instrs {
-				if cl, ok := in.(*ssa.Call); ok && cl.Call.StaticCallee() == we {
-					has = true
-				}
-			}
-			c.Decide(has, "R19.4", hfn, "error-branch:"+clip(shortVal(v), 60), "the error branch answers through writeError", "an error is detected but its branch does not answer with an error status", w.InstrPos(iff))
-		}
-		// success path: 200 is set before the body
+		unit := unitOf(r.handler)
 		set200 := false
-		EachInstr(h, func(in ssa.Instruction) {
-			if cl, ok := in.(*ssa.Call); ok && strings.HasSuffix(CalleeName(cl.Common()), "RequestCtx).SetStatusCode") {
-				if k, isK := constInt(cl.Call.Args[1]); isK && k.Int64() == 200 {
-					set200 = true
+		for _, h := range unit {
+			EachInstr(h, func(in ssa.Instruction) {
+				if cl, ok := in.(*ssa.Call); ok && strings.HasSuffix(CalleeName(cl.Common()), "RequestCtx).SetStatusCode") {
+					if k, isK := constInt(cl.Call.Args[1]); isK && k.Int64() == 200 {
+						set200 = true
+					}
 				}
+			})
+		}
+		c.Decide(set200, "R19.4", FuncName(r.handler), "success-status", "the success path sets 200", "the success path sets no 200 status", w.Pos(r.handler.Pos()))
+		for _, h := range unit {
+			if doneFn[h] {
+				continue
 			}
-		})
-		c.Decide(set200, "R19.4", hfn, "success-status", "the success path sets 200", "the success path sets no 200 status", w.Pos(h.Pos()))
+			doneFn[h] = true
+			hfn := FuncName(h)
+			// every writeError has a constant status >= 400 and is followed by return
+			EachInstr(h, func(in ssa.Instruction) {
+				cl, ok := in.(*ssa.Call)
+				if !ok {
+					return
+				}
+				if cl.Call.StaticCallee() == we {
+					nErr++
+					k, isK := constInt(cl.Call.Args[1])
+					okS := isK && k.Int64() >= 400 && k.Int64() < 600
+					_, ret := cl.Block().Instrs[len(cl.Block().Instrs)-1].(*ssa.Return)
+					c.Decide(okS && ret, "R19.4", hfn, fmt.Sprintf("error-exit@%s", statusOf(k)), "an error exit answers with a constant 4xx/5xx status and returns", "an error exit does not set a constant 4xx/5xx status and return at once", w.InstrPos(in))
+				}
+				if strings.HasSuffix(CalleeName(cl.Common()), "RequestCtx).SetStatusCode") {
+					if k, isK := constInt(cl.Call.Args[1]); isK && k.Int64() == 200 {
+						nOK++
+					}
+				}
+			})
+			// every tested error leads to writeError
+			for _, b := range h.Blocks {
+				iff, ok := b.Instrs[len(b.Instrs)-1].(*ssa.If)
+				if !ok {
+					continue
+				}
+				bo, ok := iff.Cond.(*ssa.BinOp)
+				if !ok || !(isNilConst(bo.Y) || isNilConst(bo.X)) || !(bo.Op == token.NEQ || bo.Op == token.EQL) {
+					continue
+				}
+				v := bo.X
+				if isNilConst(bo.X) {
+					v = bo.Y
+				}
+				if !isErrorType(v.Type()) {
+					continue
+				}
+				eb := b.Succs[0]
+				if bo.Op == token.EQL {
+					eb = b.Succs[1]
+				}
+				has := false
+				for _, in := range eb.Instrs {
+					if cl, ok := in.(*ssa.Call); ok && cl.Call.StaticCallee() == we {
+						has = true
+					}
+				}
+				c.Decide(has, "R19.4", hfn, "error-branch:"+clip(shortVal(v), 60), "the error branch answers through writeError", "an error is detected but its branch does not answer with an error status", w.InstrPos(iff))
+			}
+		}
 	}
 	// router default 404
 	def404 := false
